@@ -3,6 +3,7 @@ the harness replays them against the real server on every store kind, TraceRegis
 traces clause by clause; MCRegistry is also checked exhaustively for the model-level theorems."""
 import json
 import os
+import shutil
 import time
 
 import vlib
@@ -150,7 +151,7 @@ def run_known(work, vh, prop, seed, focus):
     return lines, viols, notes
 
 
-def histories(prop, tier, seed, work, scenarios, level_text, rule, nontrivial_ops):
+def histories(prop, tier, seed, work, scenarios, level_text, rule, nontrivial_ops, extras=()):
     t0 = time.time()
     vh = vlib.build_harness(work)
     focus = {prop}
@@ -180,6 +181,14 @@ def histories(prop, tier, seed, work, scenarios, level_text, rule, nontrivial_op
         for f in v["fails"]:
             path = failure_replay(prop, sc, programs, f, seed)
             violations.append((path, f))
+    extra_notes = []
+    for fn in extras:
+        x = fn(work, prop, tier, seed)
+        violations += x["violations"]
+        total_events += x["events"]
+        checked += x["events"]
+        total_traces += x["traces"]
+        extra_notes.append(x["note"])
     klines, kviols, knotes = run_known(work, vh, prop, seed, focus)
     for name, prog, f in kviols:
         path = vlib.save_replay(prop, name, {"property": prop, "kind": "history", "scenario": name, "failure": f, "program": prog,
@@ -195,7 +204,7 @@ def histories(prop, tier, seed, work, scenarios, level_text, rule, nontrivial_op
         "rule": rule,
         "samples": samples,
         "model_checking": mc_note,
-        "known_findings_reported": klines, "notes": knotes,
+        "known_findings_reported": klines, "notes": knotes + extra_notes,
         "exhaustive": False,
         "failures": [f for _, f in violations][:10],
     }
@@ -211,6 +220,10 @@ def histories(prop, tier, seed, work, scenarios, level_text, rule, nontrivial_op
 def replay(prop, path, work, seed):
     with open(path) as f:
         rp = json.load(f)
+    if rp.get("kind") == "convert":
+        return replay_convert(prop, path, rp, work, seed)
+    if rp.get("kind") == "crash":
+        return replay_crash(prop, path, rp, work, seed)
     if rp.get("kind", "history") != "history":
         raise Inconclusive("replay kind %s not handled here" % rp.get("kind"))
     vh = vlib.build_harness(work)
@@ -222,6 +235,48 @@ def replay(prop, path, work, seed):
         print("VIOLATION property=%s replay=%s" % (prop, path))
         return 1
     print("replay passes: the trace is accepted")
+    return 0
+
+
+def replay_convert(prop, path, rp, work, seed):
+    """Writes the one layout of the failure to disk again, on the stores of the property, and lets TLC judge it."""
+    f = rp["failure"]
+    lf = work.path("layout.ndjson")
+    vlib.write_programs(lf, [f["layout"]])
+    crash = prop == "C17"
+    if crash:
+        ovf, counts = rewrite_vfs(work)
+        vh = vlib.build_harness(work, tags="verif vfs", overlay=ovf)
+    else:
+        vh = vlib.build_harness(work)
+    v, counts, dt, tw = convert_run(work, vh, lf, "replay", 1, 0, "dir,memdir" if crash else "dirro,memdir", crash, rp.get("seed", seed), prop)
+    for x in v["fails"]:
+        log("  %s, %s (fs call %d %s %s): clauses %s" % (x["store"], x["phase"], x["n"], x["fsop"], x["variant"], ",".join(sorted(x["clauses"]))))
+    if v["fails"]:
+        print("VIOLATION property=%s replay=%s" % (prop, path))
+        return 1
+    print("replay passes: the layout is converted as specified (%d events)" % counts[1])
+    return 0
+
+
+def replay_crash(prop, path, rp, work, seed):
+    ovf, counts = rewrite_vfs(work)
+    vhx = vlib.build_harness(work, tags="verif vfs", overlay=ovf)
+    pf, tf = work.path("crash-replay.ndjson"), work.path("crash-replay-trace.ndjson")
+    vlib.write_programs(pf, [rp["program"]])
+    rc, out, dt = vlib.run([vhx, "crash", "-programs", pf, "-o", tf, "-seed", str(rp.get("seed", seed))], timeout=3000, check=False,
+                           env=dict(os.environ, TMPDIR=work.sub("roots")))
+    if rc != 0:
+        raise Inconclusive("crash harness failed:\n" + out[-3000:])
+    v = vlib.validate(work, "crash-replay", tf, {prop})
+    known = {k["name"] for k in vlib.load_known().get("open", []) if k.get("property") == prop}
+    bad = [f for f in v["fails"] if [c for c in f["clauses"] if ".kf-" not in c or c.split(".kf-", 1)[1] not in known]]
+    for f in bad:
+        log("  during event %d (%s): clauses %s" % (f["i"], f["op"], ",".join(f["clauses"])))
+    if bad:
+        print("VIOLATION property=%s replay=%s" % (prop, path))
+        return 1
+    print("replay passes: every crash image recovers as specified")
     return 0
 
 
@@ -435,7 +490,29 @@ def c14(prop, tier, seed, work):
         dict(name="foreign", static_programs=foreign_programs, obs=[], focus={"C14F"}),
     ]
     return histories(prop, tier, seed, work, scs, "", "a history is non-trivial if it reconfigures the server (read-only / memory over directory / APIs off) after pushes and then sends write requests; distinct = distinct operation sequences",
-                     {"Reconf"})
+                     {"Reconf"}, extras=[c14_convert])
+
+
+def c14_convert(work, prop, tier, seed):
+    """Pre-existing layouts whose first listing triggers a referrer conversion (spec/ConvertAbs.tla), opened read-only and by a
+    memory store: nothing below the directory changes and tags, manifests and blobs are still served (TraceConvert, Focus C14)."""
+    vh = vlib.build_harness(work)
+    res, layouts, lf = convert_layouts(work)
+    mod = 48 if tier == "quick" else 6
+    v, (nlay, events, images), dt, tw = convert_run(work, vh, lf, "c14", mod, seed % mod, "dirro,memdir", False, seed, "C14")
+    log("convert layouts: %d of %d layouts on dirro and memdir, %d events, %d failures (exec %.1fs, tlc %.1fs)" % (nlay, len(layouts), events, len(v["fails"]), dt, tw))
+    violations, seen = [], set()
+    for f in v["fails"]:
+        key = json.dumps([f["store"], sorted(f["clauses"]), f["layout"]], sort_keys=True)
+        if key in seen:
+            continue
+        seen.add(key)
+        path = vlib.save_replay(prop, "layout-%d-%s-%s" % (f["lid"], f["store"], f["phase"]), {"property": prop, "kind": "convert", "failure": f, "seed": seed})
+        f2 = dict(f, trace="layout %d@%s" % (f["lid"], f["store"]), op="open " + json.dumps(f["layout"]))
+        violations.append((path, f2))
+    return {"violations": violations, "events": events, "traces": nlay * 2,
+            "note": "%d of the %d layouts of spec/ConvertAbs.tla (fallback tag referrers: accurate, stale, mixed, wrong descriptors, missing manifests) opened by a read-only directory "
+                    "store and a memory store, observed twice, judged by spec/TraceConvert.tla with Focus C14 (terminates, kept, untouched)" % (nlay, len(layouts))}
 
 
 def c16(prop, tier, seed, work):
@@ -970,3 +1047,92 @@ def crash_op_matches(programs, f, match):
 
 
 CHECKS["C09"] = c09
+
+
+# --------------------------------------------------------------------------- C17: conversion of fallback tag referrers
+
+def convert_run(work, vhx, lf, name, mod, rem, stores, crash, seed, focus):
+    """One shard: harness over the selected layouts, then TraceConvert. Returns (verdict, harness counts, tlc wall)."""
+    import re
+    tf = work.path("cv-trace-%s.ndjson" % name)
+    cmd = [vhx, "convert", "-layouts", lf, "-o", tf, "-stores", stores, "-seed", str(seed), "-mod", str(mod), "-rem", str(rem)]
+    if crash:
+        cmd.append("-crash")
+    rc, out, dt = vlib.run(cmd, timeout=6000, check=False, env=dict(os.environ, TMPDIR=work.sub("roots-" + name)))
+    m = re.search(r"(\d+) layouts, (\d+) events, (\d+) crash images", out)
+    if rc != 0 or not m:
+        raise Inconclusive("convert harness failed:\n" + out[-3000:])
+    cfg = "SPECIFICATION TraceSpec\nCONSTANT Focus = \"%s\"\nINVARIANT Report\nPOSTCONDITION Consumed\nCHECK_DEADLOCK FALSE\n" % focus
+    r2 = vlib.tlc(work, "cv-val-" + name, "TraceConvert", cfg, files={tf: "trace.ndjson"}, workers=1, timeout=6000, java_opts="-Xss64m -Xmx6g")
+    vs = vlib.tlc_prints(r2["out"], "VERDICT")
+    if "Model checking completed. No error has been found." not in r2["out"] or len(vs) != 1:
+        raise Inconclusive("TraceConvert did not run to the end:\n" + r2["out"][-3000:])
+    shutil.rmtree(r2["dir"], ignore_errors=True)
+    try:
+        os.remove(tf)
+    except OSError:
+        pass
+    return vs[0], [int(x) for x in m.groups()], dt, r2["wall"]
+
+
+def convert_layouts(work):
+    cfg = "INIT Init\nNEXT Next\nINVARIANT ExpectedSane\nINVARIANT NoLoss\nINVARIANT Emit\nCHECK_DEADLOCK FALSE\n"
+    res = vlib.tlc(work, "cv-enum", "MCConvert", cfg, workers=8, timeout=1200)
+    vlib.tlc_ok(res, "MCConvert enumeration")
+    layouts = vlib.tlc_prints(res["out"], "LAYOUT")
+    if len(layouts) < 1000:
+        raise Inconclusive("MCConvert emitted only %d layouts" % len(layouts))
+    lf = work.path("layouts.ndjson")
+    vlib.write_programs(lf, layouts)
+    return res, layouts, lf
+
+
+def c17(prop, tier, seed, work):
+    from concurrent.futures import ThreadPoolExecutor
+    t0 = time.time()
+    quick = tier == "quick"
+    ovf, counts = rewrite_vfs(work)
+    vhx = vlib.build_harness(work, tags="verif vfs", overlay=ovf)
+    res, layouts, lf = convert_layouts(work)
+    if quick:
+        shards = [(36, (seed * 7 + i * 13) % 36) for i in range(2)]
+    else:
+        shards = [(12, i) for i in range(12)]
+    with ThreadPoolExecutor(max_workers=6) as ex:
+        outs = list(ex.map(lambda s: convert_run(work, vhx, lf, "%d-%d" % s, s[0], s[1], "dir,memdir", True, seed, "C17"), shards))
+    fails, nlay, events, images = [], 0, 0, 0
+    for v, (a, b, c), dt, tw in outs:
+        fails += v["fails"]
+        nlay, events, images = nlay + a, events + b, images + c
+    log("%d of %d layouts, %d events, %d crash images, %d failures" % (nlay, len(layouts), events, images, len(fails)))
+    violations = []
+    seen = set()
+    for f in fails:
+        key = json.dumps([f["store"], f["phase"], sorted(f["clauses"]), f["layout"]], sort_keys=True)
+        if key in seen:
+            continue
+        seen.add(key)
+        path = vlib.save_replay(prop, "layout-%d-%s-%s-%d" % (f["lid"], f["store"], f["phase"], f["n"]), {"property": prop, "kind": "convert", "failure": f, "seed": seed})
+        violations.append((path, f))
+    cov = {"states": res["distinct"], "transitions": res["states"], "traces_validated_against_impl": events,
+           "layouts_in_model": len(layouts), "layouts_executed": nlay, "trace_events": events, "crash_images": images,
+           "rule": "every layout of spec/ConvertAbs.tla (%d: subjects m1, m2 and a non existing one; per subject no / empty / accurate / wrong size, artifactType, annotations / "
+                   "two entry / stale / mixed-subject fallback index; missing referrer manifests; a coexisting converted response; converted annotation; a sha512 subject) is one TLC state, "
+                   "written to disk, opened by a writable directory store and by a memory store over the directory, observed completely, re-opened and observed again; for the directory store a copy of "
+                   "the directory right before each mutating file system call of the conversion (and with the temp file half written before a rename) is opened by a new server and observed; "
+                   "TLC judges every observation against Expected (clauses terminates, refs, refs512, kept, marked, untouched, repeatable of spec/TraceConvert.tla)" % len(layouts),
+           "samples": layouts[:2] + layouts[len(layouts) // 2:len(layouts) // 2 + 2], "fs_call_sites_rewritten": counts,
+           "exhaustive": not quick, "failures": [f for _, f in violations][:10]}
+    vlib.write_evidence(prop, tier, seed, "model_checking", cov, ASSUME_COMMON[:2] + [
+        "layout family: at most two descriptors per fallback index, three subjects, one artifact per defect; the fallback index blobs themselves exist and parse",
+        "crash model as in C09: a crash leaves the directory as it was before the next file system call (or with a half written temp file)"],
+        time.time() - t0, len(violations))
+    if violations:
+        for path, f in violations[:5]:
+            print("VIOLATION property=%s replay=%s" % (prop, path))
+            log("  layout %d on %s, %s (fs call %d %s %s): clauses %s; %s" % (f["lid"], f["store"], f["phase"], f["n"], f["fsop"], f["variant"], ",".join(sorted(f["clauses"])), json.dumps(f["layout"])))
+        return 1
+    return 0
+
+
+CHECKS["C17"] = c17
